@@ -25,6 +25,7 @@ type vxCol struct {
 	b    []bool
 	s    []string // for string/enum: value (meaningless when null)
 	null []bool   // string/enum only
+	zn   []bool   // string only, optional: the cell may be null or the empty string ("zero/null value")
 }
 
 // vxStrCell makes one string cell of length 0..maxLen (length concretised) with
@@ -210,6 +211,9 @@ func vxCellSame(f QFrame, name string, c vxCol, row, p int) bool {
 		}
 		p = vxConc(p, len(c.s))
 		s := v.ItemAt(row)
+		if c.zn != nil && c.zn[p] {
+			return s == nil || *s == ""
+		}
 		if c.null[p] {
 			return s == nil
 		}
